@@ -23,6 +23,7 @@ Inductive op :=
 | Arrive (tok amount : Z)                 (* ServeHTTP entry: acquire *)
 | Finish (tok amount : Z) (panicked : bool) (* the deferred release, on return or on panic *)
 | BadSource                               (* the extractor failed: no acquire, 500 *)
+| Rewrap                                  (* ConnLimiter.Wrap: the protected handler is exchanged while requests may be in flight *)
 | Burst (tok k : Z).                      (* k requests of one source arriving together, all held inside the handler
                                              until every one of them has been admitted or rejected, then all finished *)
 
@@ -37,7 +38,9 @@ Definition release (s : st) (t a : Z) : st :=
   {| cs := set (cs s) t (get (cs s) t - a); total := total s - a |}.
 
 (* observables: Arrive -> [status; connections of the source as seen by the admitted handler];
-   Finish -> []; BadSource -> [500]; Burst -> [number admitted] *)
+   Finish -> []; BadSource -> [500]; Rewrap -> []; Burst -> [number admitted].
+   The fourth field of an encoded Finish is 0 return, 1 panic, 2 return after the handler rewrote the request's source,
+   3 panic after such a rewrite: the slot goes back to the source captured at admission in every case. *)
 Definition step (maxc : Z) (s : st) (o : op) : st * list Z :=
   match o with
   | Arrive t a =>
@@ -47,6 +50,7 @@ Definition step (maxc : Z) (s : st) (o : op) : st * list Z :=
       end
   | Finish t a _ => (release s t a, [])
   | BadSource => (s, [500])
+  | Rewrap => (s, [])                                                          (* the accounting is not touched *)
   | Burst t k => (s, [Z.min (Z.max 0 k) (Z.max 0 (maxc - get (cs s) t))])   (* number admitted; nothing stays in flight *)
   end.
 
@@ -56,6 +60,7 @@ Definition decode_op (l : list Z) : op :=
   | [0; t; a] => Arrive t a
   | [1; t; a; p] => Finish t a (negb (p =? 0))
   | [3; t; k] => Burst t k
+  | [4] => Rewrap
   | _ => BadSource
   end.
 
